@@ -373,6 +373,8 @@ func (m *Model) applyWrite(s State, op Op, got Result) (Verdict, State) {
 	generated := false
 	if !m.Cfg.IsValue && id == "" && o.GenID {
 		generated = true
+		// id generation gives up (Aborted) when the random source keeps producing ids that are in use
+		mayFail = append(mayFail, codes.Aborted)
 	}
 	var cur Item
 	present := false
